@@ -76,6 +76,10 @@ def expr(draw, depth, bound, cfg: Cfg):
         if form == "call":
             return f"{draw(st.sampled_from(cfg.funcs))}({', '.join(args)})"
         return f"{_paren(sub())}.{draw(st.sampled_from(cfg.attrs))}({', '.join(args)})"
+    if form == "sub" and draw(st.integers(0, 3)) == 0:
+        # a slice, any of its three parts possibly left out
+        parts = [sub(d - 1) if draw(st.booleans()) else "" for _ in range(3)]
+        return f"{_paren(sub())}[{parts[0]}:{parts[1]}" + (f":{parts[2]}]" if parts[2] or draw(st.booleans()) else "]")
     if form == "sub":
         return f"{_paren(sub())}[{sub(d - 1)}]"
     if form == "unary":
